@@ -63,10 +63,15 @@ def key_projection(P, b):
 
 
 class Shapes:
-    def __init__(self, P, owned):
+    """shape of the value sequence an impl of `trait` (Hash: fed to the hasher; Ord: compared lexicographically) works on"""
+
+    def __init__(self, P, owned, trait='hash::Hash', method='hash', erase_option=False):
         self.P = P
         self.owned = owned
-        self.hash_impls = trait_impls(P, 'hash::Hash')
+        self.hash_impls = trait_impls(P, trait)
+        self.method = method
+        self.decl = 'hash::Hash::hash' if method == 'hash' else 'cmp::Ord::cmp'
+        self.erase_option = erase_option
         self.memo = {}
 
     def of_type(self, ty, depth=0):
@@ -84,6 +89,8 @@ class Shapes:
             return ('pct',)
         m = re.match(r'^std::option::Option<(.*)>$', ty)
         if m:
+            if self.erase_option:
+                return self.of_type(m.group(1), depth + 1)
             return ('opt', self.of_type(m.group(1), depth + 1))
         if ty in self.memo:
             return self.memo[ty]
@@ -104,14 +111,14 @@ class Shapes:
             if len(adt['variants']) != 1:
                 return ('enum', ty)
             return ('struct', tuple(self.of_type(f['ty'], depth + 1) for f in adt['variants'][0]['fields']))
-        b = impl_fn(self.P, im, 'hash')
+        b = impl_fn(self.P, im, self.method)
         if b is None:
             return ('opaque', ty)
         feeds = []
         for body, tag in [(b, None)] + [(c, 'iter') for c in closures_of(self.P, b)]:
             for bi, t in self.P.calls(body):
                 decl = (t['func'].get('fn') or {}).get('path') or ''
-                if decl.endswith('hash::Hash::hash') and t['args']:
+                if decl.endswith(self.decl) and t['args']:
                     a = t['args'][0]
                     if a['k'] in ('copy', 'move'):
                         aty = body['locals'][a['place']['local']]
